@@ -6,6 +6,9 @@ import GoldilocksVerif.Gen.PosAvx512
 import GoldilocksVerif.Lemmas.Avx512MatF
 import GoldilocksVerif.Lemmas.PosAvx2F
 set_option linter.unusedSimpArgs false
+set_option linter.unnecessarySeqFocus false
+set_option linter.unusedTactic false
+set_option linter.unreachableTactic false
 set_option linter.unusedVariables false
 set_option maxRecDepth 8192
 namespace GoldilocksVerif
@@ -285,11 +288,22 @@ theorem vloop512_lane (r : Nat) (s04 s04_ : Region) (a0 a1 a2 : V8) (i : Fin 4) 
       den (a1.get (hi8 i)) + (den (s04_ 1) ^ 7 + C (60 + r)) * S (23 * r + 11 + (4 + i.val)) ∧
      den ((Pos_hash_full_result_avx512_loop1 posMask8 r (s04, s04_, a0, a1, a2)).2.2.2.2.get (hi8 i)) =
       den (a2.get (hi8 i)) + (den (s04_ 1) ^ 7 + C (60 + r)) * S (23 * r + 11 + (8 + i.val))) := by
-  refine ⟨⟨?_, ?_, ?_⟩, ⟨?_, ?_, ?_⟩⟩ <;>
-    (simp only [Pos_hash_full_result_avx512_loop1, add512_al_eq, den_add_avx512, den_mult_avx512, (set8_get _ _ i).1,
-       (set8_get _ _ i).2, (set4_get _ _ _ _ i).1, (set4_get _ _ _ _ i).2, (get_mk4 _ i).1, (get_mk4 _ i).2.1,
-       (get_mk4 _ i).2.2, Region.set_apply, ↓reduceIte, Nat.reduceEqDiff, den_add_r, den_pow7]
-     simp only [Region.shift_apply, C, S, Nat.add_comm 60 r])
+  -- operand order of the exact lane operations and index arithmetic of the constants: `ring_nf`.  The call pattern
+  -- `add_avx512(st, w, st)` (result aliasing the SECOND operand) has a generated definition only when the code uses it: its
+  -- equation is tried first.
+  first
+  | (have eb : ∀ c a : V8, add_avx512__wWW_al_c_b c a = add_avx512__wWW a c := by
+       intro c a; simp only [add_avx512__wWW_al_c_b, add_avx512__wWW]
+     refine ⟨⟨?_, ?_, ?_⟩, ⟨?_, ?_, ?_⟩⟩ <;>
+       (simp only [Pos_hash_full_result_avx512_loop1, add512_al_eq, eb, den_add_avx512, den_mult_avx512, (set8_get _ _ i).1,
+          (set8_get _ _ i).2, (set4_get _ _ _ _ i).1, (set4_get _ _ _ _ i).2, (get_mk4 _ i).1, (get_mk4 _ i).2.1,
+          (get_mk4 _ i).2.2, Region.set_apply, ↓reduceIte, Nat.reduceEqDiff, den_add_r, den_pow7]
+        simp only [Region.shift_apply, C, S, Nat.add_comm 60 r] <;> ring_nf))
+  | (refine ⟨⟨?_, ?_, ?_⟩, ⟨?_, ?_, ?_⟩⟩ <;>
+       (simp only [Pos_hash_full_result_avx512_loop1, add512_al_eq, den_add_avx512, den_mult_avx512, (set8_get _ _ i).1,
+          (set8_get _ _ i).2, (set4_get _ _ _ _ i).1, (set4_get _ _ _ _ i).2, (get_mk4 _ i).1, (get_mk4 _ i).2.1,
+          (get_mk4 _ i).2.2, Region.set_apply, ↓reduceIte, Nat.reduceEqDiff, den_add_r, den_pow7]
+        simp only [Region.shift_apply, C, S, Nat.add_comm 60 r] <;> ring_nf))
 
 theorem vloop512 (r : Nat) (s04 s04_ : Region) (a0 a1 a2 : V8) :
     pF ((Pos_hash_full_result_avx512_loop1 posMask8 r (s04, s04_, a0, a1, a2)).2.1 0)
